@@ -432,6 +432,15 @@ def runSeq (cfg : Cfg) : St → List Op → Option (St × List (List Out))
       | none => none
       | some (s2, outs) => some (s2, out :: outs)
 
+/-- one maintenance tick of `fracmanager.CacheMaintainer.RunCleanLoop` as seen by one cleaner: `cm.rotate()`, then -
+unconditionally - `cm.cleanup()`, and every `gcInterval` also `cm.garbageCollection()` = `CleanEmptyGenerations`,
+`ReleaseBuckets` -/
+def tickOps (gc : Bool) : List Op :=
+  [.rotate, .cleanup] ++ (if gc then [.cleanEmpty, .releaseBuckets] else [])
+
+/-- `frac.IndexCache.Release` (and every other owner of a set of caches): `Release` on each cache of the set -/
+def releaseAllLabels (cs : List Nat) : List Label := cs.map .release
+
 inductive SeqReach (cfg : Cfg) : St → Prop
   | init : SeqReach cfg init
   | op {s s' op o} : SeqReach cfg s → seqOp cfg s op = some (s', o) → SeqReach cfg s'
